@@ -411,20 +411,31 @@ func conclude(root string, p *Property, tier string, seed int64, res *runResult,
 		}
 	}
 	deathViol := 0
+	deathSeen := map[string]int{}
 	for i := range res.deaths {
 		d := &res.deaths[i]
 		isRace := d.Sig == "data-race"
 		if isRace || p.DeathIsViolation {
-			if kf := matchKnown(known, p.ID, d.Sig+":"+strconv.FormatInt(d.K, 10)); kf != nil {
-				fmt.Printf("KNOWN-FINDING: property=%s %s\n", p.ID, kf.What)
+			sig := d.Sig
+			if !isRace && p.DeathClass != nil {
+				sig = d.Sig + ":" + p.DeathClass(tier, seed, d.K)
+			}
+			deathSeen[sig]++
+			if kf := matchKnown(known, p.ID, sig); kf != nil {
+				if deathSeen[sig] == 1 {
+					fmt.Printf("KNOWN-FINDING: property=%s %s (match=%s)\n", p.ID, kf.What, kf.Match)
+				}
 				continue
 			}
-			path := writeReplay(root, p.ID, tier, seed, d.Sig, d, 1)
-			fmt.Printf("VIOLATION property=%s replay=%s\n  %s\n", p.ID, path, d.Msg)
 			deathViol++
 			exit = 1
+			if deathSeen[sig] > 1 {
+				continue // one report per class
+			}
+			path := writeReplay(root, p.ID, tier, seed, sig, d, 1)
+			fmt.Printf("VIOLATION property=%s replay=%s\n  sig=%s case=%d: %s\n", p.ID, path, sig, d.K, clip(d.Msg, 600))
 		} else {
-			res.inconcl = append(res.inconcl, fmt.Sprintf("case %d: %s", d.K, d.Msg))
+			res.inconcl = append(res.inconcl, fmt.Sprintf("case %d: %s", d.K, clip(d.Msg, 300)))
 		}
 	}
 
